@@ -227,6 +227,7 @@ def gen_e2e_case(rng, n):
     case = {'kind': 'e2e', 'cls': cls, 'stage': stage, 'as_cfg': rng.random() < 0.4, 'config': enc(cfg, (), []), 'plants': plants,
             'meta': cls in ('VideoIn', 'VideoOut')}
     if cls == 'VideoIn' and rng.random() < 0.4: case['open_fail'] = rng.randint(0, 3)
+    if cls == 'VideoIn' and rng.random() < 0.4: case['ends'] = rng.randint(0, 2)
     if cls == 'MQTTOut' and rng.random() < 0.5:
         # the documented way to give broker credentials (config.username / config.password), set IN ADDITION to whatever the URI carries
         cfg['username'] = 'mqttuser'; cfg['password'] = rng.choice(['brokerpw', None]) ; case['config'] = enc(cfg, (), [])
@@ -288,13 +289,16 @@ class _Env:
 
         class FakeVideoGear:
             fail = set()          # raw sources that refuse to open (camera off / wrong password): CamGear's error text carries no URI
+            end_after = None      # the stream ends by itself after so many frames (camera switched off): whatever is logged on that path is checked too
             def __init__(self, source=None, **kw):
                 if source in FakeVideoGear.fail: raise RuntimeError('[CamGear:ERROR] :: Source is invalid, CamGear failed to initialize stream on this source!')
-                self.stream = FakeStream(); self.stopped = False
+                self.stream = FakeStream(); self.stopped = False; self.n = 0
             def start(self): return self
             def stop(self): self.stopped = True
             def read(self):
                 if self.stopped: return None
+                self.n += 1
+                if FakeVideoGear.end_after is not None and self.n > FakeVideoGear.end_after: return None
                 time.sleep(0.001)
                 return np.zeros((4, 6, 3), np.uint8)
 
@@ -308,7 +312,8 @@ class _Env:
         self.buf = io.StringIO()
         self.handler = logging.StreamHandler(self.buf)
         self.handler.setLevel(logging.DEBUG)
-        self.handler.setFormatter(logging.Formatter('%(levelname)s %(message)s'))
+        # LOG_FORMAT is the user's choice (filter.py quotes the 'everything' format): every textual LogRecord attribute is captured, not the message alone
+        self.handler.setFormatter(logging.Formatter('%(levelname)s %(name)s %(processName)s.%(threadName)s %(filename)s %(funcName)s - %(message)s'))
 
     def __enter__(self):
         import vidgear.gears as vg
@@ -413,11 +418,12 @@ def run_e2e(env, case):
                             if case.get('open_fail') is not None:     # one of the cameras refuses to open: whatever setup() logs on that path is checked too
                                 srcs = [x.source for x in f.config.sources]
                                 env.FakeVideoGear.fail = {srcs[case['open_fail'] % len(srcs)]} if srcs else set()
+                            env.FakeVideoGear.end_after = case.get('ends')
                             f.setup(f.config)
                             try:
                                 get = f.process({})
                                 t0 = time.time(); frames = None
-                                while frames is None and time.time() - t0 < 2: frames = get()
+                                while frames is None and time.time() - t0 < (2 if case.get('ends') is None else 0.05): frames = get()
                                 for fr in (frames or {}).values(): obs['src'].append(str(fr.data.get('meta', {}).get('src')))
                                 obs['src_input'] = [s.source for s in f.config.sources]
                             finally:
@@ -428,7 +434,7 @@ def run_e2e(env, case):
                         try: f.fini()
                         except Exception: pass
     finally:
-        env.FakeVideoGear.fail = set()
+        env.FakeVideoGear.fail = set(); env.FakeVideoGear.end_after = None
         if orig_norm is not None: cls.normalize_config = orig_norm
         if f is not None:
             try: f.stop_logging()
@@ -578,7 +584,7 @@ def run(ctx):
                 elif kind == 'errmsg':
                     # the ERROR line(s) Filter.run() writes for an exception in the loop = the masked message
                     mt = ustr(m.get('up'))
-                    errs = [l[6:] for l in o['log'].split('\n') if l.startswith('ERROR ')]
+                    errs = [l.split(' - ', 1)[1] if ' - ' in l else l[6:] for l in o['log'].split('\n') if l.startswith('ERROR ')]    # handler format: attributes - message
                     it = mt if mt in errs else errs       # other ERROR lines (e.g. a lineage emit failure) may surround it
                 else:
                     mt, it = ustr(m.get('src')), (o['src'][aux] if aux < len(o['src']) else None)
